@@ -3,6 +3,7 @@
 From Coq Require Import String List NArith ZArith Bool.
 From J5V.lib Require Import Outcome Corr Json JsonPrint Base64 Civil Decimal.
 From J5V.model Require Import CodecTypes CodecEnc CodecEncDec.
+From J5V.proofs Require Import CodecEncDecProofs.
 Import ListNotations.
 Local Open Scope N_scope.
 Local Open Scope bool_scope.
@@ -112,6 +113,15 @@ Definition oneofs_flat_b (e : env) : bool :=
                      | _ => true
                      end) e.
 
+(* every static hypothesis of the round-trip theorem, decided on an environment of the run
+   (soundness of the deciders: proofs/CodecEncDecProofs.v) *)
+Definition env_static_ok (e : env) : bool :=
+  oneofs_flat_b e && oneof_names_ok_b e &&
+  forallb (fun ns => match snd ns with
+                     | SObject ps | SOneof ps => props_ok_b e ps
+                     | SEnum _ _ => true
+                     end) e.
+
 Definition enc_check (c : enc_case) : bool :=
   match c with
   | CEnc e root m floats inner strict ok out valid =>
@@ -155,7 +165,7 @@ Definition enc_check (c : enc_case) : bool :=
   | CValid s valid => Bool.eqb (is_some (strict_parse s)) valid
   | CDecimal s r => opt_bytes_eqb (dec_normalise s) r
   | CRound e root m floats inner pf pt strict out back =>
-      oneofs_flat_b e &&
+      env_static_ok e &&
       match encode (float_table floats) (inner_table inner) e root m with
       | Ok b =>
           (if strict then bytes_eqb b out
